@@ -161,7 +161,8 @@ func genesisRecord(rec *Recorder, sp *common.Spec, hash common.Root, t common.Ti
 	if valid {
 		v = 1
 	}
-	rec.Line("genesis %s %d %s %s %d %s", hex.EncodeToString(hash[:]), t, file, id, v, tag)
+	root := StateRoot(st)
+	rec.Line("genesis %s %d %s %s %d %s root=%s", hex.EncodeToString(hash[:]), t, file, id, v, tag, hex.EncodeToString(root[:]))
 	return st, epc, id
 }
 
@@ -214,7 +215,8 @@ func (c *Chain) Genesis(p *GenesisPlan) error {
 			return fmt.Errorf("kickstart: %w", err)
 		}
 		id = c.Rec.State(st)
-		c.Rec.Line("kickstart %s %d %s %s", hex.EncodeToString(p.Eth1Hash[:]), gt, file, id)
+		kroot := StateRoot(st)
+		c.Rec.Line("kickstart %s %d %s %s root=%s", hex.EncodeToString(p.Eth1Hash[:]), gt, file, id, hex.EncodeToString(kroot[:]))
 		c.Stats.Inc("genesis_kickstart")
 	}
 	c.adopt(st, epc, id)
